@@ -64,6 +64,7 @@ type State struct {
 	cells     map[string]string
 	defers    []*deferRec
 	panicking bool
+	acq       *State // heap snapshot taken right after the most recent lock acquisition (for acq(...) in contracts)
 }
 
 func (s *State) clone() *State {
@@ -75,6 +76,7 @@ func (s *State) clone() *State {
 		n.cells[k] = v
 	}
 	n.defers = append([]*deferRec{}, s.defers...)
+	n.acq = s.acq
 	return n
 }
 
@@ -605,6 +607,32 @@ func (e *Exec) merge(states []*State) *State {
 		}
 		out.cells[k] = acc
 	}
+	// acquisition snapshots: merged with the same guards
+	sameAcq := true
+	for _, s := range live {
+		if s.acq != live[0].acq {
+			sameAcq = false
+		}
+	}
+	if sameAcq {
+		out.acq = live[0].acq
+	} else {
+		var snaps []*State
+		ok := true
+		for _, s := range live {
+			if s.acq == nil {
+				ok = false
+				break
+			}
+			c := s.acq.clone()
+			c.acq = nil
+			c.reach = s.reach
+			snaps = append(snaps, c)
+		}
+		if ok {
+			out.acq = e.merge(snaps)
+		}
+	}
 	// defers: must agree (take longest common; differing stacks are rare)
 	out.defers = append([]*deferRec{}, live[0].defers...)
 	for _, s := range live[1:] {
@@ -1084,6 +1112,22 @@ func (e *Exec) enterLoop(fr *Frame, st *State, hdr *ssa.BasicBlock, ord int, bod
 			}
 			e.hhavoc(ns, m)
 		}
+	}
+	// the acquisition snapshot is part of the state: havoc it the same way (invariants re-link it)
+	if st.acq != nil {
+		na := st.acq.clone()
+		na.acq = nil
+		if all {
+			na.heap = map[string]string{}
+			na.base = e.sc.freshName("LA")
+		} else {
+			for _, m := range ws {
+				if m != "G_alloc" {
+					e.hhavoc(na, m)
+				}
+			}
+		}
+		ns.acq = na
 	}
 	// cells written in the loop
 	for _, b := range fr.fn.Blocks {
